@@ -1,8 +1,96 @@
-(* C01 - property theorems (statements only; proofs in Proofs/C01.v). *)
+(* C01 - every accessor handed out stays inside its parent memory and is aligned.
+   Statements only: each is closed by [exact] of a lemma from Proofs/C01.v.
+   Vocabulary (Spec/C01.v, Impl/Volatile.v):
+     accessor   a slice / typed ref / array ref / &T / &Atomic / host pointer / region, with host
+                address and sizes as N
+     derive m p op        one accessor-producing call of the library on accessor p (the model)
+     acc_base, acc_len    host address and EXACT number of designated bytes (nelem * size for arrays)
+     inside p c           c designates only bytes of p
+     acc_valid p          p is an address range ending below 2^64 (true of every mapping)
+     fits p op            the request fits p, in unbounded arithmetic (no wrap-around)
+     op_wf op             the alignment named by the request is a power of two (align_of always is) *)
 From VM Require Import Prelude.MachInt Prelude.Outcome Impl.Volatile Spec.C01 Suite.C01 Proofs.C01.
 
-Theorem C01_compute_end_offset_exact : forall len base offset e,
-  compute_end_offset len base offset = Ok e <-> e = base + offset /\ base + offset <= len /\ base + offset < W64.
-Proof. exact compute_end_offset_Ok. Qed.
+(* whatever is requested, in both build profiles: an accessor that is handed out lies inside its
+   parent (and is again a valid range, so the statement chains) *)
+Theorem C01_derive_contained : forall m p op c, acc_valid p -> op_wf op ->
+  derive m p op = Val (Ok c) ->
+  acc_base p <= acc_base c /\ acc_base c + acc_len c <= acc_base p + acc_len p /\ acc_base c + acc_len c < W64.
+Proof. exact derive_contained_flat. Qed.
 
-Print Assumptions C01_compute_end_offset_exact.
+(* a typed or atomic reference is only produced at a multiple of the type's alignment *)
+Theorem C01_derive_aligned : forall m p op c, acc_valid p -> op_wf op ->
+  derive m p op = Val (Ok c) ->
+  match c with ATyped t | AAtomic t => tr_addr t mod tr_align t = 0 | _ => True end.
+Proof. exact derive_aligned_lemma. Qed.
+
+(* a request is answered with an accessor exactly when it fits: no accessor for a request that
+   does not fit (including the ones whose arithmetic overflows), no refusal of one that does.
+   Side condition: the parent does not end at the very top of the address space. *)
+Theorem C01_derive_exact : forall m p op, acc_valid p -> op_wf op ->
+  (fits p op <-> exists c, derive m p op = Val (Ok c)).
+Proof. exact derive_exact_lemma. Qed.
+
+(* and the accessor is the one the request names (no wrap-around in its address or length) *)
+Theorem C01_derive_child : forall m p op c, acc_valid p -> op_wf op ->
+  (derive m p op = Val (Ok c) <-> fits p op /\ c = child p op).
+Proof. exact derive_child_lemma. Qed.
+
+(* chains of derivations of ANY depth stay inside the root (induction over the request list) *)
+Theorem C01_chain_contained : forall ops m root c, acc_valid root -> Forall op_wf ops ->
+  derive_chain m root ops = Val (Ok c) ->
+  acc_base root <= acc_base c /\ acc_base c + acc_len c <= acc_base root + acc_len root /\
+  acc_base c + acc_len c < W64.
+Proof. exact chain_contained_flat. Qed.
+
+Theorem C01_chain_aligned : forall ops m root c, acc_valid root -> Forall op_wf ops -> ops <> [] ->
+  derive_chain m root ops = Val (Ok c) ->
+  match c with ATyped t | AAtomic t => tr_addr t mod tr_align t = 0 | _ => True end.
+Proof. exact chain_aligned_lemma. Qed.
+
+(* GuestMemory::get_slice / get_host_address, given what find_region returned: an accessor only
+   inside that region, at the offset of the guest address; no region, no accessor *)
+Theorem C01_guest_get_slice : forall m fr addr count s,
+  (forall r, fr = Some r -> acc_valid (AGRegion r)) ->
+  gm_get_slice m fr addr count = Val (Ok s) ->
+  exists r, fr = Some r /\ gr_base r <= addr /\
+            s = VS (rg_addr (gr_map r) + (addr - gr_base r)) count /\
+            (addr - gr_base r) + count <= rg_size (gr_map r) /\ inside (AGRegion r) (ASlice s).
+Proof. exact gm_get_slice_lemma. Qed.
+
+Theorem C01_guest_get_host_address : forall fr addr p,
+  (forall r, fr = Some r -> acc_valid (AGRegion r)) ->
+  gm_get_host_address fr addr = Val (Ok p) ->
+  exists r, fr = Some r /\ gr_base r <= addr /\ addr - gr_base r < rg_size (gr_map r) /\
+            p = rg_addr (gr_map r) + (addr - gr_base r) /\ inside (AGRegion r) (AHost p).
+Proof. exact gm_get_host_address_lemma. Qed.
+
+Theorem C01_guest_unmapped : forall m addr count,
+  gm_get_slice m None addr count = Val (Err (GInvalidGuestAddress addr)) /\
+  gm_get_host_address None addr = Val (Err (GInvalidGuestAddress addr)).
+Proof. exact gm_unmapped_lemma. Qed.
+
+(* non-vacuity: a 9-byte parent ending 2 bytes below 2^64; a fitting chain, a request whose
+   pointer sum overflows, a misaligned and an aligned atomic request *)
+Example C01_nonvacuous :
+  let root := ASlice (VS (W64 - 11) 9) in
+  let u32 := {| e_size := 4; e_align := 4 |} in
+  acc_valid root /\ Forall op_wf [DOffset 1; DGetArrayRef u32 4 1; DRefAt 0] /\
+  derive_chain Debug root [DOffset 1; DGetArrayRef u32 4 1; DRefAt 0] = Val (Ok (ARef (VR (W64 - 6) 4))) /\
+  derive Debug root (DOffset 12) = Val (Err (DV (EOverflow (W64 - 11) 12))) /\
+  derive Debug root (DGetAtomicRef u32 2) = Val (Err (DV (EMisaligned (W64 - 9) 4))) /\
+  derive Debug root (DGetAtomicRef u32 3) = Val (Ok (AAtomic (TR (W64 - 8) 4 4))).
+Proof.
+  cbv zeta. split; [unfold acc_valid; rewrite W64_val; vm_compute; reflexivity|].
+  split; [repeat constructor|]. rewrite W64_val. vm_compute. repeat split.
+Qed.
+
+Print Assumptions C01_derive_contained.
+Print Assumptions C01_derive_aligned.
+Print Assumptions C01_derive_exact.
+Print Assumptions C01_derive_child.
+Print Assumptions C01_chain_contained.
+Print Assumptions C01_chain_aligned.
+Print Assumptions C01_guest_get_slice.
+Print Assumptions C01_guest_get_host_address.
+Print Assumptions C01_guest_unmapped.
